@@ -119,7 +119,8 @@ Definition lines_for (id : N) (w : list wr) : list bytes :=
      sink      := (0 | 1 <pattern> <add_meta>) <min_level> (0 | 1 <byte> | 2 <byte>)
                   filter 1: reject when the message line contains <byte>
                   filter 2: reject when the logger's statement contains <byte>
-     logger    := <pattern> <add_meta> <n> <sink index>*n
+     logger    := <name> <pattern> <add_meta> <n> <sink index>*n     (the name is only used by the
+                  harness: the model's statements carry it in <stmt>)
      statement := <logger index> <level 0..8> <site> <stmt> <rt_file> <rt_line>   (as pat mode 1)
    obs: 0 <nstmts> <threw 0|1>*nstmts <nsinks> (<n> (<len> <byte>*len)*n)*nsinks *)
 Fixpoint take_list {A} (take1 : list N -> option (A * list N)) (n : nat) (l : list N)
@@ -179,9 +180,10 @@ Fixpoint number_sinks (i : N) (l : list sink) : list sink :=
 Record dlogger := { dl_opts : popts; dl_sinks : list N }.
 
 Definition take_logger (l : list N) : option (dlogger * list N) :=
-  bind (take_popts l) (fun '(o, l1) =>
+  bind (take_bytes l) (fun '(_name, l0) =>
+  bind (take_popts l0) (fun '(o, l1) =>
   bind (take_counted take_num l1) (fun '(ix, l2) =>
-  Some ({| dl_opts := o; dl_sinks := ix |}, l2))).
+  Some ({| dl_opts := o; dl_sinks := ix |}, l2)))).
 
 Record dstmt := { ds_logger : N; ds_level : N; ds_stmt : option stmt }.
 
